@@ -45,6 +45,7 @@ type Op struct {
 	Big    int  `json:"big,omitempty"`    // payload size selector
 	Q      int  `json:"q,omitempty"`      // query variation seed
 	Same   bool `json:"same,omitempty"`   // delete-group: keep using the SAME store instance afterwards (as a partition does)
+	Long   bool `json:"long,omitempty"`   // append: a batch of 8200-8500 small entries; hardstate: commit everything; create-snapshot: at most 2 below the commit index (a compaction over more than 8192 entries)
 }
 
 type Case struct {
@@ -241,6 +242,9 @@ func check(c Case, o *pbt.Obs) *pbt.Failure {
 		switch op.K {
 		case OpAppend:
 			n := op.N%40 + 1
+			if op.Long {
+				n = 8200 + op.N%300
+			}
 			back := uint64(op.Back)
 			if back > g.last-g.commit {
 				back = g.last - g.commit
@@ -255,6 +259,9 @@ func check(c Case, o *pbt.Obs) *pbt.Failure {
 			for i := range ents {
 				ix := start + uint64(i)
 				ents[i] = raftpb.Entry{Index: ix, Term: g.term, Data: payload(ix, g.term, op.Big+i)}
+				if op.Long {
+					ents[i].Data = payload(ix, g.term, 1+i%2)
+				}
 				if (op.Q+i)%11 == 0 {
 					ents[i].Type = raftpb.EntryConfChange
 				}
@@ -296,6 +303,9 @@ func check(c Case, o *pbt.Obs) *pbt.Failure {
 			g.lastTm = g.term
 		case OpHardState:
 			adv := uint64(op.N % 64)
+			if op.Long {
+				adv = g.last - g.commit
+			}
 			if g.commit+adv > g.last {
 				adv = g.last - g.commit
 			}
@@ -351,6 +361,13 @@ func check(c Case, o *pbt.Obs) *pbt.Failure {
 				continue
 			}
 			ix := g.snapIx + 1 + uint64(op.N)%(g.commit-g.snapIx)
+			if op.Long {
+				ix = g.commit - uint64(op.N)%3
+				if ix <= g.snapIx {
+					ix = g.commit
+				}
+				o.Label("compaction-near-the-commit-index")
+			}
 			cs := &raftpb.ConfState{Nodes: []uint64{1, uint64(op.Q%4) + 2}}
 			data := payload(ix, g.terms[ix], op.Big)
 			s1, err := g.w.CreateSnapshot(ix, cs, data)
@@ -447,7 +464,20 @@ func genCase(t *rapid.T) Case {
 		}
 		return o
 	})
-	return Case{Groups: rapid.IntRange(1, 3).Draw(t, "groups"), Ops: rapid.SliceOfN(op, 3, maxOps).Draw(t, "ops")}
+	c := Case{Groups: rapid.IntRange(1, 3).Draw(t, "groups"), Ops: rapid.SliceOfN(op, 3, maxOps).Draw(t, "ops")}
+	// one case in two hundred: a log of more than 8192 entries that is committed, compacted in one go and reopened before the
+	// generated calls carry on (what a busy partition's log looks like between two snapshots: the snapshot offset is 5000)
+	if rapid.Uint64().Draw(t, "longlog")%200 == 137 {
+		g := rapid.IntRange(0, 2).Draw(t, "longg")
+		n := rapid.IntRange(0, 299).Draw(t, "longn")
+		at := rapid.IntRange(0, len(c.Ops)).Draw(t, "longat")
+		sc := []Op{{K: OpAppend, G: g, N: n, Long: true, WithHS: true}, {K: OpHardState, G: g, Long: true}, {K: OpCompact, G: g, N: n, Long: true}, {K: OpReopen, G: g}}
+		c.Ops = append(append(append([]Op(nil), c.Ops[:at]...), sc...), c.Ops[at:]...)
+		if len(c.Ops) > at+12 {
+			c.Ops = c.Ops[:at+12] // every later call is compared over the whole index range: keep such cases short
+		}
+	}
+	return c
 }
 
 func genDiskCase(t *rapid.T) Case {
@@ -468,7 +498,7 @@ func TestWalOnDiskVsMemoryStorage(t *testing.T) {
 func TestWalVsMemoryStorage(t *testing.T) {
 	pbt.Run(t, pbt.Prop[Case]{
 		ID: "C06", Name: "TestWalVsMemoryStorage",
-		Rule:  "rapid-generated raft-legal call sequences (contiguous appends incl. conflicting overwrites of the uncommitted tail from a newer term and batches that begin with 1-3 stored uncommitted entries handed over again unchanged - so a batch may begin with a matching term, span several terms and end before the old last index -, hard-state saves with monotone term/commit, installs of received snapshots with index > commit both ahead of the log and inside the stale tail, optionally with following entries, CreateSnapshot(i) for snapshot < i <= commit, DeleteGroup + re-create, DeleteGroup and carrying on with the SAME store object as storage.partition does, reopen = fresh NewBadgerWAL on the same in-memory Badger) over 1-3 groups in one DB (nil id, and two ids sharing a 15-byte prefix); after every call FirstIndex/LastIndex/Term(first-2..last+2)/Entries(ranges x size limits incl. 0, no-limit and limits within 2 bytes of a cumulative-size boundary, lo<first)/Snapshot/InitialState are compared with etcd raft.MemoryStorage fed the same calls, for the touched group and every other group; non-trivial = a reopen after a compaction or snapshot install, or >=2 groups interleaved; distinct = distinct case JSON",
+		Rule:  "rapid-generated raft-legal call sequences (contiguous appends incl. conflicting overwrites of the uncommitted tail from a newer term and batches that begin with 1-3 stored uncommitted entries handed over again unchanged - so a batch may begin with a matching term, span several terms and end before the old last index -, hard-state saves with monotone term/commit, installs of received snapshots with index > commit both ahead of the log and inside the stale tail, optionally with following entries, CreateSnapshot(i) for snapshot < i <= commit, in one case of two hundred a batch of 8200-8500 entries that is committed, compacted in one CreateSnapshot and reopened, DeleteGroup + re-create, DeleteGroup and carrying on with the SAME store object as storage.partition does, reopen = fresh NewBadgerWAL on the same in-memory Badger) over 1-3 groups in one DB (nil id, and two ids sharing a 15-byte prefix); after every call FirstIndex/LastIndex/Term(first-2..last+2)/Entries(ranges x size limits incl. 0, no-limit and limits within 2 bytes of a cumulative-size boundary, lo<first)/Snapshot/InitialState are compared with etcd raft.MemoryStorage fed the same calls, for the touched group and every other group; non-trivial = a reopen after a compaction or snapshot install, or >=2 groups interleaved; distinct = distinct case JSON",
 		Gen:   genCase,
 		Check: check,
 	})
